@@ -24,8 +24,12 @@ Proof.
 Qed.
 
 (* the function main() holds in run_next *)
+(* (the world of main()'s link holds no torn marker: the function runs on the tree with the empty torn set) *)
 Definition src_stepfn (md : mode) : stepfn :=
-  match md with Retro => src_run_next_retrospective_step | Prosp => src_run_next_prospective_step end.
+  match md with
+  | Retro => fun f => src_run_next_retrospective_step (f, [])
+  | Prosp => fun f => src_run_next_prospective_step (f, [])
+  end.
 
 Lemma src_stepfn_is_model md f extra bs :
   src_stepfn md f SInput extra bs = result_of_plan md bs (plan_of md true bs f).
@@ -93,10 +97,10 @@ Proof.
   intros md n fuel argv extra f sched calls0 Hm Hf. unfold src_main. rewrite Hm.
   destruct md; cbn [modename_of modename_eqb].
   - rewrite (main_loop Retro n extra (a_batch_size argv)) by (exact Hf || (intros w; unfold main_body, src_stepfn;
-      destruct (world_call n src_run_next_retrospective_step w OutDir SInput extra (a_batch_size argv)) as [[b w1]| |]; reflexivity)).
+      destruct (world_call n (fun f => src_run_next_retrospective_step (f, [])) w OutDir SInput extra (a_batch_size argv)) as [[b w1]| |]; reflexivity)).
     apply mbind_ret.
   - rewrite (main_loop Prosp n extra (a_batch_size argv)) by (exact Hf || (intros w; unfold main_body, src_stepfn;
-      destruct (world_call n src_run_next_prospective_step w OutDir SInput extra (a_batch_size argv)) as [[b w1]| |]; reflexivity)).
+      destruct (world_call n (fun f => src_run_next_prospective_step (f, [])) w OutDir SInput extra (a_batch_size argv)) as [[b w1]| |]; reflexivity)).
     apply mbind_ret.
 Qed.
 
